@@ -169,7 +169,9 @@ theorem effBelow_append_above (l app : List Nat) (happ : app.Nodup) (c p g : Nat
     simp [h1, this]
   · simp [h1]
 
-theorem SInv_step {s s' : Tgt} {e : Ev} (hi : SInv n grp s) (h : step n grp s e = some s') :
+theorem SInv_step {s s' : Tgt} {e : Ev} (hi : SInv n grp s)
+    (hd : cutStoresNothing e)
+    (h : step n grp s e = some s') :
     SInv n grp s' := by
   cases e with
   | start =>
@@ -236,7 +238,9 @@ theorem SInv_step {s s' : Tgt} {e : Ev} (hi : SInv n grp s) (h : step n grp s e 
               simp [h1, this]
             · simp [h1, h2]
       · exact nomatch h
-    | cut app =>
+    | cut app st =>
+      have hst : st = false := hd
+      subst hst
       simp only [step] at h
       split at h
       · rename_i hg
@@ -259,17 +263,22 @@ theorem SInv_step {s s' : Tgt} {e : Ev} (hi : SInv n grp s) (h : step n grp s e 
           exact hi.eff g
       · exact nomatch h
 
-theorem SInv_run : ∀ (evs : List Ev) (s s' : Tgt), SInv n grp s → run n grp s evs = some s' →
-    SInv n grp s' := by
+theorem Disciplined_head {e : Ev} {es : List Ev} (hd : Disciplined (e :: es)) :
+    cutStoresNothing e ∧ Disciplined es :=
+  ⟨hd e (by simp), fun x hx => hd x (by simp [hx])⟩
+
+theorem SInv_run : ∀ (evs : List Ev) (s s' : Tgt), SInv n grp s → Disciplined evs →
+    run n grp s evs = some s' → SInv n grp s' := by
   intro evs
   induction evs with
-  | nil => intro s s' hi h; simp only [run, Option.some.injEq] at h; subst h; exact hi
+  | nil => intro s s' hi _ h; simp only [run, Option.some.injEq] at h; subst h; exact hi
   | cons e es ih =>
-    intro s s' hi h
+    intro s s' hi hd h
     simp only [run] at h
     split at h
     · rename_i s1 hs1
-      exact ih s1 s' (SInv_step n grp hi hs1) h
+      obtain ⟨hd1, hd2⟩ := Disciplined_head hd
+      exact ih s1 s' (SInv_step n grp hi hd1 hs1) hd2 h
     · exact nomatch h
 
 /-- the stored position never moves backwards -/
@@ -289,23 +298,29 @@ theorem stored_mono_step {s s' : Tgt} {e : Ev} (hi : SInv n grp s) (h : step n g
         · have := hi.le1; omega
         · exact Nat.le_refl _
       · exact nomatch h
-    | cut app =>
+    | cut app st =>
       simp only [step] at h
       split at h
-      · simp only [Option.some.injEq] at h; subst h; exact Nat.le_refl _
+      · rename_i hg
+        simp only [Option.some.injEq] at h; subst h
+        show s.stored ≤ (if st = true then q else s.stored)
+        split
+        · have := hi.le1; omega
+        · exact Nat.le_refl _
       · exact nomatch h
 
-theorem stored_mono_run : ∀ (evs : List Ev) (s s' : Tgt), SInv n grp s → run n grp s evs = some s' →
-    s.stored ≤ s'.stored := by
+theorem stored_mono_run : ∀ (evs : List Ev) (s s' : Tgt), SInv n grp s → Disciplined evs →
+    run n grp s evs = some s' → s.stored ≤ s'.stored := by
   intro evs
   induction evs with
-  | nil => intro s s' _ h; simp only [run, Option.some.injEq] at h; subst h; exact Nat.le_refl _
+  | nil => intro s s' _ _ h; simp only [run, Option.some.injEq] at h; subst h; exact Nat.le_refl _
   | cons e es ih =>
-    intro s s' hi h
+    intro s s' hi hd h
     simp only [run] at h
     split at h
     · rename_i s1 hs1
-      exact Nat.le_trans (stored_mono_step n grp hi hs1) (ih s1 s' (SInv_step n grp hi hs1) h)
+      obtain ⟨hd1, hd2⟩ := Disciplined_head hd
+      exact Nat.le_trans (stored_mono_step n grp hi hs1) (ih s1 s' (SInv_step n grp hi hd1 hs1) hd2 h)
     · exact nomatch h
 end GunYu.ClusterSegments
 namespace GunYu.ClusterSegments
@@ -317,7 +332,7 @@ def PrefixRun : Tgt → List Ev → Prop
   | _, [] => True
   | s, e :: es =>
     (match e with
-     | .batch q (.cut app) => PrefixCut grp s.cur q app
+     | .batch q (.cut app _) => PrefixCut grp s.cur q app
      | _ => True) ∧ ∀ s', step n grp s e = some s' → PrefixRun s' es
 
 /-- per group, what has been executed is downward closed -/
@@ -341,7 +356,7 @@ theorem prefix_sorted_down {l pre : List Nat} (hs : l.Pairwise (· < ·)) (hp : 
     omega
 
 theorem DownClosed_step {s s' : Tgt} {e : Ev} (hi : SInv n grp s) (hd : DownClosed grp s.log)
-    (hp : match e with | .batch q (.cut app) => PrefixCut grp s.cur q app | _ => True)
+    (hp : match e with | .batch q (.cut app _) => PrefixCut grp s.cur q app | _ => True)
     (h : step n grp s e = some s') : DownClosed grp s'.log := by
   -- what a batch `[cur,q)` with per-group prefixes adds keeps the log downward closed
   have key : ∀ (q : Nat) (app : List Nat), AppOK s.cur q app →
@@ -379,7 +394,7 @@ theorem DownClosed_step {s s' : Tgt} {e : Ev} (hi : SInv n grp s) (hd : DownClos
         rw [hcomp i hir]
         exact List.prefix_refl _
       · exact nomatch h
-    | cut app =>
+    | cut app st =>
       simp only [step] at h
       split at h
       · rename_i hg
@@ -389,17 +404,18 @@ theorem DownClosed_step {s s' : Tgt} {e : Ev} (hi : SInv n grp s) (hd : DownClos
       · exact nomatch h
 
 theorem DownClosed_run : ∀ (evs : List Ev) (s s' : Tgt), SInv n grp s → DownClosed grp s.log →
-    PrefixRun n grp s evs → run n grp s evs = some s' → DownClosed grp s'.log := by
+    Disciplined evs → PrefixRun n grp s evs → run n grp s evs = some s' → DownClosed grp s'.log := by
   intro evs
   induction evs with
-  | nil => intro s s' _ hd _ h; simp only [run, Option.some.injEq] at h; subst h; exact hd
+  | nil => intro s s' _ hd _ _ h; simp only [run, Option.some.injEq] at h; subst h; exact hd
   | cons e es ih =>
-    intro s s' hi hd hp h
+    intro s s' hi hd hdi hp h
     simp only [run] at h
     split at h
     · rename_i s1 hs1
       obtain ⟨hp1, hp2⟩ := hp
-      exact ih s1 s' (SInv_step n grp hi hs1) (DownClosed_step n grp hi hd hp1 hs1) (hp2 s1 hs1) h
+      obtain ⟨hd1, hd2⟩ := Disciplined_head hdi
+      exact ih s1 s' (SInv_step n grp hi hd1 hs1) (DownClosed_step n grp hi hd hp1 hs1) hd2 (hp2 s1 hs1) h
     · exact nomatch h
 
 /-- a batch only ever executes commands at or above the stored position: what has been
@@ -415,7 +431,7 @@ theorem batch_above_stored {s s' : Tgt} {q : Nat} {o : Outcome} (hi : SInv n grp
       simp only [Option.some.injEq] at h; subst h
       exact ⟨app, rfl, fun i hia => by have := (hg.2.2.1.2 i hia).1; have := hi.le1; omega⟩
     · exact nomatch h
-  | cut app =>
+  | cut app st =>
     simp only [step] at h
     split at h
     · rename_i hg
@@ -471,7 +487,7 @@ def prefixRunB : Tgt → List Ev → Bool
   | _, [] => true
   | s, e :: es =>
     (match e with
-     | .batch q (.cut app) => decide (PrefixCut grp s.cur q app)
+     | .batch q (.cut app _) => decide (PrefixCut grp s.cur q app)
      | _ => true) &&
     (match step n grp s e with
      | some s' => prefixRunB s' es
@@ -492,9 +508,328 @@ theorem prefixRun_of_B : ∀ (evs : List Ev) (s : Tgt), prefixRunB n grp s evs =
       | batch q o =>
         cases o with
         | ok app st => trivial
-        | cut app => simpa using h1
+        | cut app st => simpa using h1
     · intro s' hs'
       rw [hs'] at h2
       exact ih s' h2
 
+end GunYu.ClusterSegments
+
+namespace GunYu.ClusterSegments
+
+/-- every two adjacent elements are related -/
+def Adj (R : Nat → Nat → Prop) : List Nat → Prop
+  | [] => True
+  | [_] => True
+  | x :: y :: t => R x y ∧ Adj R (y :: t)
+
+theorem adj_append {R : Nat → Nat → Prop} : ∀ (l1 l2 : List Nat), Adj R l1 → Adj R l2 →
+    (∀ x y, l1.getLast? = some x → l2.head? = some y → R x y) → Adj R (l1 ++ l2) := by
+  intro l1
+  induction l1 with
+  | nil => intro l2 _ h2 _; simpa using h2
+  | cons a t ih =>
+    intro l2 h1 h2 hj
+    cases t with
+    | nil =>
+      cases l2 with
+      | nil => simp [Adj]
+      | cons y t2 =>
+        show Adj R (a :: y :: t2)
+        exact ⟨hj a y (by simp) (by simp), h2⟩
+    | cons b t' =>
+      show Adj R (a :: (b :: t' ++ l2))
+      have h1' : R a b ∧ Adj R (b :: t') := h1
+      have := ih l2 h1'.2 h2 (fun x y hx hy => hj x y (by simpa [List.getLast?_cons_cons] using hx) hy)
+      exact ⟨h1'.1, this⟩
+
+theorem adj_prefix {R : Nat → Nat → Prop} : ∀ (l pre : List Nat), Adj R l → pre <+: l → Adj R pre := by
+  intro l
+  induction l with
+  | nil => intro pre _ hp; have := List.prefix_nil.mp hp; subst this; trivial
+  | cons a t ih =>
+    intro pre hl hp
+    cases pre with
+    | nil => trivial
+    | cons a' pt =>
+      have h1 := List.cons_prefix_cons.mp hp
+      obtain ⟨rfl, hpt⟩ := h1
+      cases pt with
+      | nil => trivial
+      | cons b pt' =>
+        cases t with
+        | nil => exact absurd hpt (by simp)
+        | cons b' t' =>
+          have h2 := List.cons_prefix_cons.mp hpt
+          obtain ⟨rfl, _⟩ := h2
+          have hl' : R a' b ∧ Adj R (b :: t') := hl
+          exact ⟨hl'.1, ih (b :: pt') hl'.2 hpt⟩
+
+/-- in group `g`'s log, `y` directly after `x` never skips a command of the group: no command of
+    `g` lies strictly between them (`y ≤ x` = a replay jumps back, `y` = the next one otherwise) -/
+def NoSkipRel (grp : Nat → Nat) (g : Nat) (x y : Nat) : Prop := ∀ z, grp z = g → x < z → z < y → False
+
+theorem adj_range_filter (grp : Nat → Nat) (g : Nat) : ∀ (m p : Nat),
+    Adj (NoSkipRel grp g) ((List.range' p m).filter (fun i => grp i == g)) := by
+  intro m
+  induction m with
+  | zero => intro p; simp [Adj]
+  | succ m ih =>
+    intro p
+    rw [List.range'_succ, List.filter_cons]
+    by_cases hp : grp p = g
+    · simp only [hp, beq_self_eq_true, if_true]
+      have hF := ih (p + 1)
+      have hS : ((List.range' (p + 1) m).filter (fun i => grp i == g)).Pairwise (· < ·) :=
+        List.Pairwise.filter _ List.pairwise_lt_range'
+      cases hFl : (List.range' (p + 1) m).filter (fun i => grp i == g) with
+      | nil => trivial
+      | cons y t =>
+        rw [hFl] at hF hS
+        refine ⟨?_, hF⟩
+        intro z hz hpz hzy
+        have hy : y ∈ (List.range' (p + 1) m).filter (fun i => grp i == g) := by rw [hFl]; simp
+        rw [List.mem_filter, List.mem_range'_1] at hy
+        have hzm : z ∈ (List.range' (p + 1) m).filter (fun i => grp i == g) := by
+          rw [List.mem_filter, List.mem_range'_1]
+          exact ⟨⟨by omega, by omega⟩, by simp [hz]⟩
+        rw [hFl, List.mem_cons] at hzm
+        rw [List.pairwise_cons] at hS
+        cases hzm with
+        | inl e => omega
+        | inr e => have := hS.1 z e; omega
+    · have : (grp p == g) = false := by simp [hp]
+      simp only [this]
+      exact ih (p + 1)
+
+end GunYu.ClusterSegments
+
+namespace GunYu.ClusterSegments
+variable (n : Nat) (grp : Nat → Nat)
+
+/-- group `g`'s part of the target's log, in execution order -/
+def projG (g : Nat) (l : List Nat) : List Nat := l.filter (fun i => grp i == g)
+
+structure KInv (s : Tgt) : Prop where
+  adj : ∀ g, Adj (NoSkipRel grp g) (projG grp g s.log)
+  top : ∀ g x, (projG grp g s.log).getLast? = some x → ∀ z, grp z = g → z < s.cur → z ≤ x
+
+theorem group_prefix_all {p q : Nat} {app : List Nat} (ha : AppOK p q app)
+    (hp : PrefixCut grp p q app) (g : Nat) :
+    projG grp g app <+: (rng p q).filter (fun j => grp j == g) := by
+  by_cases h : ∃ i ∈ rng p q, grp i = g
+  · obtain ⟨i, hi, rfl⟩ := h
+    exact hp i hi
+  · have : projG grp g app = [] := by
+      unfold projG
+      rw [List.filter_eq_nil_iff]
+      intro j hj hg
+      exact h ⟨j, rng_mem.mpr (ha.2 j hj), by simpa using hg⟩
+    rw [this]
+    exact List.nil_prefix
+
+theorem sorted_head_le {l : List Nat} (hs : l.Pairwise (· < ·)) {y z : Nat} (hy : l.head? = some y)
+    (hz : z ∈ l) : y ≤ z := by
+  cases l with
+  | nil => exact nomatch hy
+  | cons a t =>
+    simp only [List.head?_cons, Option.some.injEq] at hy
+    subst hy
+    rw [List.pairwise_cons] at hs
+    rw [List.mem_cons] at hz
+    cases hz with
+    | inl e => omega
+    | inr e => have := hs.1 z e; omega
+
+theorem sorted_le_last {l : List Nat} (hs : l.Pairwise (· < ·)) {m z : Nat} (hm : l.getLast? = some m)
+    (hz : z ∈ l) : z ≤ m := by
+  rw [List.getLast?_eq_some_iff] at hm
+  obtain ⟨init, rfl⟩ := hm
+  rw [List.pairwise_append] at hs
+  rw [List.mem_append] at hz
+  cases hz with
+  | inl e => have := hs.2.2 z e m (by simp); omega
+  | inr e => simp at e; omega
+
+/-- appending a batch's executions `[p,q)` (per group a prefix of the group's part) keeps the
+    per-group log free of skips -/
+theorem KInv_append {s : Tgt} (hk : KInv grp s) {q : Nat} {app : List Nat} (_hq : s.cur ≤ q)
+    (ha : AppOK s.cur q app) (hp : PrefixCut grp s.cur q app) :
+    (∀ g, Adj (NoSkipRel grp g) (projG grp g (s.log ++ app))) ∧
+    (∀ g x, (projG grp g (s.log ++ app)).getLast? = some x → ∀ z, grp z = g → z < s.cur → z ≤ x) := by
+  have hpre := group_prefix_all grp ha hp
+  have hsplit : ∀ g, projG grp g (s.log ++ app) = projG grp g s.log ++ projG grp g app := by
+    intro g; simp [projG]
+  refine ⟨?_, ?_⟩
+  · intro g
+    rw [hsplit g]
+    apply adj_append _ _ (hk.adj g)
+    · exact adj_prefix _ _ (adj_range_filter grp g (q - s.cur) s.cur) (hpre g)
+    · intro x y hx hy z hz hxz hzy
+      have hyR : ((rng s.cur q).filter (fun j => grp j == g)).head? = some y := by
+        obtain ⟨rest, hr⟩ := hpre g
+        rw [← hr]
+        cases hpa : projG grp g app with
+        | nil => rw [hpa] at hy; exact nomatch hy
+        | cons a t => rw [hpa] at hy; simpa using hy
+      have hyin : y ∈ (rng s.cur q).filter (fun j => grp j == g) := by
+        cases hl : (rng s.cur q).filter (fun j => grp j == g) with
+        | nil => rw [hl] at hyR; exact nomatch hyR
+        | cons a t => rw [hl] at hyR; simp at hyR; subst hyR; simp
+      rw [List.mem_filter] at hyin
+      have hyb := rng_mem.mp hyin.1
+      by_cases hzp : z < s.cur
+      · have := hk.top g x hx z hz hzp; omega
+      · have hzin : z ∈ (rng s.cur q).filter (fun j => grp j == g) := by
+          rw [List.mem_filter]; exact ⟨rng_mem.mpr ⟨by omega, by omega⟩, by simp [hz]⟩
+        have := sorted_head_le (rng_filter_sorted grp s.cur q g) hyR hzin
+        omega
+  · intro g x hx z hz hzc
+    rw [hsplit g, List.getLast?_append] at hx
+    cases hla : (projG grp g app).getLast? with
+    | none =>
+      rw [hla] at hx
+      simp only [Option.none_or] at hx
+      exact hk.top g x hx z hz hzc
+    | some m =>
+      rw [hla] at hx
+      simp only [Option.some_or, Option.some.injEq] at hx
+      subst hx
+      have hm : m ∈ projG grp g app := List.mem_of_getLast? hla
+      unfold projG at hm
+      rw [List.mem_filter] at hm
+      have := (ha.2 m hm.1).1
+      omega
+end GunYu.ClusterSegments
+namespace GunYu.ClusterSegments
+variable (n : Nat) (grp : Nat → Nat)
+
+theorem complete_prefixCut {p q : Nat} {app : List Nat} (hc : Complete grp p q app) :
+    PrefixCut grp p q app := by
+  intro i hi
+  rw [hc i hi]
+  exact List.prefix_refl _
+
+theorem KInv_step {s s' : Tgt} {e : Ev} (hi : SInv n grp s) (hk : KInv grp s)
+    (hp : match e with | .batch q (.cut app _) => PrefixCut grp s.cur q app | _ => True)
+    (h : step n grp s e = some s') : KInv grp s' := by
+  cases e with
+  | start =>
+    simp only [step, Option.some.injEq] at h; subst h
+    exact ⟨hk.adj, fun g x hx z hz hzc => hk.top g x hx z hz (Nat.lt_of_lt_of_le hzc hi.le1)⟩
+  | batch q o =>
+    cases o with
+    | ok app store =>
+      simp only [step] at h
+      split at h
+      · rename_i hg
+        obtain ⟨hle, hqn, happ, hcomp⟩ := hg
+        simp only [Option.some.injEq] at h; subst h
+        obtain ⟨h1, h2⟩ := KInv_append grp hk hle happ (complete_prefixCut grp hcomp)
+        refine ⟨h1, ?_⟩
+        intro g x hx z hz hzq
+        by_cases hzc : z < s.cur
+        · exact h2 g x hx z hz hzc
+        · -- z is a command of the batch: it was executed by it, the group's log ends at or after it
+          have hzr : z ∈ rng s.cur q := rng_mem.mpr ⟨by omega, hzq⟩
+          have hzapp : z ∈ projG grp g app := by
+            unfold projG
+            rw [List.mem_filter]
+            exact ⟨complete_mem grp hcomp hzr, by simp [hz]⟩
+          have hsplit : projG grp g (s.log ++ app) = projG grp g s.log ++ projG grp g app := by
+            simp [projG]
+          have hx' : (projG grp g (s.log ++ app)).getLast? = some x := hx
+          rw [hsplit, List.getLast?_append] at hx'
+          cases hla : (projG grp g app).getLast? with
+          | none =>
+            have : projG grp g app = [] := List.getLast?_eq_none_iff.mp hla
+            rw [this] at hzapp
+            exact absurd hzapp List.not_mem_nil
+          | some m =>
+            rw [hla] at hx'
+            simp only [Option.some_or, Option.some.injEq] at hx'
+            subst hx'
+            have hsorted : (projG grp g app).Pairwise (· < ·) := by
+              have := complete_all_groups grp happ hcomp g
+              unfold projG
+              rw [this]
+              exact rng_filter_sorted grp s.cur q g
+            exact sorted_le_last hsorted hla hzapp
+      · exact nomatch h
+    | cut app st =>
+      simp only [step] at h
+      split at h
+      · rename_i hg
+        obtain ⟨hle, hqn, happ⟩ := hg
+        simp only [Option.some.injEq] at h; subst h
+        obtain ⟨h1, h2⟩ := KInv_append grp hk hle happ hp
+        exact ⟨h1, h2⟩
+      · exact nomatch h
+
+theorem KInv_init : KInv grp {} := by
+  refine ⟨fun g => ?_, fun g x hx => ?_⟩
+  · simp [projG, Adj]
+  · simp [projG] at hx
+
+theorem KInv_run : ∀ (evs : List Ev) (s s' : Tgt), SInv n grp s → KInv grp s → Disciplined evs →
+    PrefixRun n grp s evs → run n grp s evs = some s' → KInv grp s' := by
+  intro evs
+  induction evs with
+  | nil => intro s s' _ hk _ _ h; simp only [run, Option.some.injEq] at h; subst h; exact hk
+  | cons e es ih =>
+    intro s s' hi hk hdi hp h
+    simp only [run] at h
+    split at h
+    · rename_i s1 hs1
+      obtain ⟨hp1, hp2⟩ := hp
+      obtain ⟨hd1, hd2⟩ := Disciplined_head hdi
+      exact ih s1 s' (SInv_step n grp hi hd1 hs1) (KInv_step n grp hi hk hp1 hs1) hd2 (hp2 s1 hs1) h
+    · exact nomatch h
+end GunYu.ClusterSegments
+
+namespace GunYu.ClusterSegments
+variable (n : Nat) (grp : Nat → Nat)
+
+theorem run_append : ∀ (a b : List Ev) (s : Tgt),
+    run n grp s (a ++ b) = (run n grp s a).bind (fun s1 => run n grp s1 b) := by
+  intro a
+  induction a with
+  | nil => intro b s; rfl
+  | cons e es ih =>
+    intro b s
+    simp only [List.cons_append, run]
+    cases step n grp s e with
+    | none => rfl
+    | some s1 => exact ih b s1
+
+/-- after a run of acknowledged batches the sender stands at the end of the last one -/
+theorem run_ok_batches_cur : ∀ (bs : List (Nat × Outcome)) (s s' : Tgt),
+    (∀ b ∈ bs, isOk b.2 = true) → run n grp s (bs.map (fun b => Ev.batch b.1 b.2)) = some s' →
+    s'.cur = (bs.getLast?.map (·.1)).getD s.cur := by
+  intro bs
+  induction bs with
+  | nil => intro s s' _ h; simp only [List.map_nil, run, Option.some.injEq] at h; subst h; rfl
+  | cons b t ih =>
+    intro s s' hok h
+    simp only [List.map_cons, run] at h
+    split at h
+    · rename_i s1 hs1
+      have hb := hok b (by simp)
+      obtain ⟨q, o⟩ := b
+      cases o with
+      | cut app st => exact nomatch hb
+      | ok app st =>
+        simp only [step] at hs1
+        split at hs1
+        · simp only [Option.some.injEq] at hs1; subst hs1
+          have := ih _ s' (fun x hx => hok x (by simp [hx])) h
+          rw [this]
+          cases t with
+          | nil => rfl
+          | cons b2 t2 =>
+            cases hl : (b2 :: t2).getLast? with
+            | none => exact absurd (List.getLast?_eq_none_iff.mp hl) (by simp)
+            | some v => simp [List.getLast?_cons_cons, hl]
+        · exact nomatch hs1
+    · exact nomatch h
 end GunYu.ClusterSegments
